@@ -158,6 +158,31 @@ def run(ctx):
                 if len(ctx.broken) > 8:
                     break
     ctx.sample({"example": cat[0].name, "kernel evaluations": len(exprs)})
+    # encoders built one at a time and dropped again (a sweep over codes): what each advertises must be its own
+    import gc
+    import torch
+    from kaira.models.fec import encoders as E
+    seen = 0
+    for n_ in range(3, 13 if ctx.quick else 16):
+        for g_ in fec.divisors_of_xn1(n_):
+            k_ = n_ - (g_.bit_length() - 1)
+            if not (1 <= k_ <= 8):
+                continue
+            for tag in ("left", "right"):
+                try:
+                    e_ = E.CyclicCodeEncoder(code_length=n_, generator_polynomial=g_, information_set=tag)
+                except Exception:
+                    continue
+                adv = e_.minimum_distance()
+                adv = int(adv() if callable(adv) else adv)
+                true = fec.min_distance(fec.rows_of(e_.generator_matrix), k_)
+                seen += 1
+                ctx.count("drop-and-rebuild-objects")
+                if adv != true:
+                    ctx.violation("C03/CyclicCodeEncoder/minimum-distance-exact/object-lifetime", "CyclicCodeEncoder(n=%d, g=%s, %s) built after %d earlier encoders had been dropped advertises minimum distance %d, its code has %d" % (
+                        n_, bin(g_), tag, seen - 1, adv, true), {"n": n_, "g": g_, "information_set": tag})
+                del e_
+                gc.collect()
     ctx.assumptions += ["true distances above the kernel enumeration bound (k > %d) are computed by the Python reference only (Gray-code enumeration / MacWilliams), not by a theorem instance" % KMAX,
                         "the general BCH bound and the Reed-Muller distance formula for arbitrary parameters are not formalised: each catalogue instance is decided by enumeration"]
     ctx.cov["exhaustive"] = False
